@@ -175,6 +175,13 @@ def signature(op, flags, a, b, verdict, ghex=None):
             del sig["op"]            # one family whatever the operation: a ring / line thinner than two grid cells
             sig["subCellFeature"] = True
             return sig
+        if ghex:
+            # is the scale 1/gridSize exact (gridSize a power of two)?  Otherwise grid-aligned ordinates k*gridSize times the
+            # rounded scale are not integers, and exact incidences with hot-pixel corners are decided by rounding noise
+            import struct as _st
+            gs = _st.unpack(">d", bytes.fromhex(ghex))[0]
+            m = abs(gs)
+            sig["scaleExact"] = bool(m > 0 and m != float("inf") and (1.0 / m) * m == 1.0 and float.fromhex(m.hex()).hex().startswith("0x1.0000000000000p"))
     if op == "UU":
         k = leaf_kinds(a)
         mixed = sum(1 for x in k if x > 0) > 1
